@@ -400,3 +400,116 @@ def gen_step_clocks(src):
     facts = dict(sisSchedClock=sis[0], sisRecoverClock=sis[1], sirSchedClock=sir[0], sirRecoverClock=sir[1], dtYearNumeric=num, dtYearDate=dat)
     defs = '\n'.join(f'def {k} : String := {lean_str(v)}' for k, v in facts.items())
     return f'namespace StarsimModel.Gen\n{defs}\nend StarsimModel.Gen\n', facts
+
+
+# ---------------------------------------------------------------------------
+# Round 5: how a user-supplied value is merged into a module parameter whose default is a time parameter
+# (`Pars.update` dispatch + `Pars._update_timepar` branch table)
+
+PARS = 'starsim/parameters.py'
+NUMBER_NAMES = {'Number', 'numbers.Number', 'int', 'float', 'np.number', 'numbers.Real'}
+
+
+def _type_names(node, where):
+    elts = node.elts if isinstance(node, ast.Tuple) else [node]
+    out = []
+    for e in elts:
+        t = unparse(e)
+        if t == 'type(None)': out.append('NoneType'); continue
+        if not isinstance(e, (ast.Name, ast.Attribute)):
+            raise ExtractError(f'{where}: type test `{t}` is outside the supported vocabulary')
+        if t in NUMBER_NAMES: t = 'Number'
+        for pre in ('ss.', 'pd.', 'np.'):
+            if t.startswith(pre): t = t[len(pre):]
+        out.append(t)
+    return out
+
+
+def _upd_action(body, where):
+    """ classify the body of one branch of _update_timepar: replace | set | set* | set** | raise | if:<T>:<a>:<b> """
+    stmts = [s for s in body if not (isinstance(s, ast.Expr) and isinstance(s.value, ast.Constant))]
+    if stmts and isinstance(stmts[-1], ast.Raise): return 'raise'
+    if len(stmts) != 1:
+        raise ExtractError(f'{where}: branch body has {len(stmts)} statements: `{"; ".join(unparse(s) for s in stmts)}`')
+    s = stmts[0]
+    if isinstance(s, ast.Assign) and len(s.targets) == 1 and unparse(s.targets[0]) == 'self[key]' and unparse(s.value) == 'new': return 'replace'
+    if isinstance(s, ast.Expr) and isinstance(s.value, ast.Call) and unparse(s.value.func) == 'old.set':
+        c = s.value
+        if len(c.args) == 1 and not c.keywords and unparse(c.args[0]) == 'new': return 'set'
+        if len(c.args) == 1 and not c.keywords and isinstance(c.args[0], ast.Starred) and unparse(c.args[0].value) == 'new': return 'set*'
+        if not c.args and len(c.keywords) == 1 and c.keywords[0].arg is None and unparse(c.keywords[0].value) == 'new': return 'set**'
+    if isinstance(s, ast.If) and isinstance(s.test, ast.Call) and unparse(s.test.func) == 'isinstance' and unparse(s.test.args[0]) == 'old' and s.orelse:
+        ts = _type_names(s.test.args[1], where)
+        return f"if:{'|'.join(ts)}:{_upd_action(s.body, where)}:{_upd_action(s.orelse, where)}"
+    raise ExtractError(f'{where}: branch `{unparse(s)}` is outside the supported vocabulary')
+
+
+def _isinstance_chain(node, var, where):
+    """ [(type names, body)] of an if / elif chain of `isinstance(<var>, T)` tests; the final else as (['*'], body) """
+    out = []
+    while True:
+        t = node.test
+        if isinstance(t, ast.Call) and unparse(t.func) == 'isinstance' and len(t.args) == 2 and unparse(t.args[0]) == var:
+            out.append((_type_names(t.args[1], where), node.body))
+        elif isinstance(t, ast.Call) and unparse(t.func) == 'callable' and len(t.args) == 1 and unparse(t.args[0]) == var:
+            out.append((['callable'], node.body))
+        else:
+            raise ExtractError(f'{where}: test `{unparse(t)}` is outside the supported vocabulary')
+        if len(node.orelse) == 1 and isinstance(node.orelse[0], ast.If):
+            node = node.orelse[0]
+        else:
+            if node.orelse: out.append((['*'], node.orelse))
+            return out
+
+
+@generator('ParsUpdate', [PARS])
+def gen_pars_update(src):
+    ut = src.func(PARS, '_update_timepar', 'Pars')
+    if [a.arg for a in ut.args.args] != ['self', 'key', 'old', 'new']:
+        raise ExtractError(f'Pars._update_timepar: signature changed: {[a.arg for a in ut.args.args]}')
+    ifs = [s for s in ut.body if isinstance(s, ast.If)]
+    other = [s for s in ut.body if not isinstance(s, (ast.If, ast.Return)) and not (isinstance(s, ast.Expr) and isinstance(s.value, ast.Constant))]
+    if len(ifs) != 1 or other:
+        raise ExtractError('Pars._update_timepar: expected a single if / elif chain on the type of `new`')
+    branches = []
+    for types, body in _isinstance_chain(ifs[0], 'new', 'Pars._update_timepar'):
+        act = _upd_action(body, 'Pars._update_timepar')
+        for t in types: branches.append((t, act))
+    # dispatch in Pars.update: which handler a parameter whose current value is of type T goes to
+    up = src.func(PARS, 'update', 'Pars')
+    chain = [n for n in ast.walk(up) if isinstance(n, ast.If) and isinstance(n.test, ast.Call) and unparse(n.test.func) == 'isinstance'
+             and unparse(n.test.args[0]) == 'old' and unparse(n.test.args[1]) == 'atomic_classes']
+    if len(chain) != 1:
+        raise ExtractError('Pars.update: the `isinstance(old, atomic_classes)` dispatch chain was not found')
+    node = chain[0]
+    node_rest = node.orelse[0] if len(node.orelse) == 1 and isinstance(node.orelse[0], ast.If) else None
+    if node_rest is None:
+        raise ExtractError('Pars.update: dispatch chain has no elif branches')
+    dispatch = [('atomic', 'direct')]
+    for types, body in _isinstance_chain(node_rest, 'old', 'Pars.update'):
+        stmts = [s for s in body if not (isinstance(s, ast.Expr) and isinstance(s.value, ast.Constant))]
+        last = stmts[-1]
+        if isinstance(last, ast.Assign) and unparse(last.targets[0]) == 'self[key]' and unparse(last.value) == 'new': h = 'direct'
+        elif isinstance(last, ast.Expr) and isinstance(last.value, ast.Call) and unparse(last.value.func).startswith('self._update_') and \
+                [unparse(a) for a in last.value.args] == ['key', 'old', 'new']: h = unparse(last.value.func)[len('self.'):]
+        elif isinstance(last, ast.Expr) and isinstance(last.value, ast.Call) and unparse(last.value.func) == 'old.update': h = 'recurse'
+        else:
+            raise ExtractError(f'Pars.update: handler `{unparse(last)}` is outside the supported vocabulary')
+        for t in types: dispatch.append((t, h))
+    # atomic_classes must not contain a time parameter class (else a TimePar default would be overwritten directly)
+    atom = [n.value for n in src.tree(PARS).body if isinstance(n, ast.Assign) and unparse(n.targets[0]) == 'atomic_classes']
+    if len(atom) != 1:
+        raise ExtractError('atomic_classes: definition not found')
+    atomic = _type_names(atom[0], 'atomic_classes')
+    rows = lambda l: ', '.join(f'({lean_str(a)}, {lean_str(b)})' for a, b in l)
+    body = f'''namespace StarsimModel.Gen
+/-- `Pars._update_timepar(key, old, new)`: (type of `new`, action), in source order (first match wins).
+    replace = `self[key] = new`; set = `old.set(new)`; set* = `old.set(*new)`; set** = `old.set(**new)` -/
+def updBranches : List (String × String) := [{rows(branches)}]
+/-- `Pars.update`: (type of the CURRENT value `old`, handler), in source order -/
+def updDispatch : List (String × String) := [{rows(dispatch)}]
+/-- `atomic_classes` (current values of these types are overwritten directly) -/
+def updAtomic : List String := [{', '.join(lean_str(a) for a in atomic)}]
+end StarsimModel.Gen
+'''
+    return body, dict(branches=branches, dispatch=dispatch, atomic=atomic)
